@@ -109,6 +109,7 @@ func cmdCheck(args []string) int {
 func runCheck(o *checkOpts) *checkResult {
 	t0 := time.Now()
 	res := &checkResult{}
+	loadNames(o.root)
 	e, err := loadEngine(o.repo, o.overlay)
 	if err != nil {
 		res.loadErr = err
